@@ -59,7 +59,8 @@ fn main() {
     }
     sched::install_repo_hook();
     let code = match args[1].as_str() {
-        "check" => {
+        "check" | "digests" => {
+            let digests_mode = args[1] == "digests";
             let prop = args[2].as_str();
             let mut tier = match std::env::var("VERIF_TIER").as_deref() {
                 Ok("thorough") => Tier::Thorough,
@@ -102,7 +103,7 @@ fn main() {
                 no_shrink,
             };
             let _ = std::fs::create_dir_all(format!("/dev/shm/nsim-{}", std::process::id()));
-            let c = dispatch!(prop, run_check, &opts);
+            let c = if digests_mode { dispatch!(prop, digests, &opts) } else { dispatch!(prop, run_check, &opts) };
             let _ = std::fs::remove_dir_all(format!("/dev/shm/nsim-{}", std::process::id()));
             c
         },
